@@ -496,6 +496,17 @@ pub fn generate_c12(tier: &str, seed: u64, out: &mut Out) {
                 };
                 sat_req(out, &format!("a ({} 1.0-1)", op), &asg2);
                 sat_req(out, "a", &asg2);
+                // architecture qualifiers never take part in the lookup: the package is looked up
+                // by its bare name, also when an entry `a:amd64` exists in the assignment
+                for q in ["any", "native", "amd64", "i386"] {
+                    sat_req(out, &format!("a:{} ({} 1.0-1)", q, op), &asg);
+                    sat_req(out, &format!("a:{}", q), &asg2);
+                    let asg3 = match inst {
+                        None => enc_assign(&[("a:amd64", "1.0-1")]),
+                        Some(v) => enc_assign(&[("a", v), ("a:amd64", "9")]),
+                    };
+                    sat_req(out, &format!("a:{} ({} 1.0-1)", q, op), &asg3);
+                }
             }
         }
     }
@@ -541,7 +552,7 @@ pub fn generate_c12(tier: &str, seed: u64, out: &mut Out) {
     }
     // ---- 4. layout, qualifiers, restrictions, and what the parsers accept beyond the five operators
     let odd = [
-        "a(>=2)", "a ( >= 2 )", "a\t(>= 2)", "a (>= 1:2)", "a (>= 2-1)", "a:any (>= 2)", "a [amd64] ", "a (>= 2) [amd64 !i386]",
+        "a(>=2)", "a ( >= 2 )", "a\t(>= 2)", "a (>= 1:2)", "a (>= 2-1)", "a:any (>= 2)", "a:amd64 (>= 2)", "a:i386", "a:native (<< 2) | b:armhf", "a [amd64] ", "a (>= 2) [amd64 !i386]",
         "a <!nocheck>", "a (>= 2) <!nocheck> <cross>", "a |b", "a| b", "a ,b", " a", "a ", "a,", ",a", "a,,b", "a | ", "| a",
         "a (> 2)", "a (< 2)", "a (2)", "a (== 2)", "a (>= )", "a ()", "a (>= 2", "a >= 2)", "a (>= 2) b", "A", "a_b", "a (>= 2_0)",
         "${misc:Depends}", "a, ${misc:Depends}", "a (= ${binary:Version})", "a\n | b", "a (>= 2),\n b",
@@ -565,8 +576,8 @@ pub fn generate_c12(tier: &str, seed: u64, out: &mut Out) {
                 let nn = if rng.chance(80) { 2 } else { 5 };
                 let name = names[rng.below(nn)];
                 let mut r = name.to_string();
-                if rng.chance(5) {
-                    r.push_str(":any");
+                if rng.chance(12) {
+                    r.push_str([":any", ":native", ":amd64", ":i386"][rng.below(4)]);
                 }
                 if rng.chance(70) {
                     let sp = if rng.chance(90) { " " } else { "" };
